@@ -9,7 +9,7 @@
 A case = {'tempi': ['2', '1/2', …], 'root': 'sys'|'app'|'t0'…, 'rts': [[act…], …],
           'late': {'mode': 'zero'|'common'|'perthread'|'random', 'vals': ['1/64', …]}}
 Acts (tokens of lean/Sc3Verif/C05/Driver.lean): y d | hang | log | send b | spawn r clk | tempo i x |
-pause r | resume r | stop r | wait c | sig c | seed n | draw | pull r (r.next() on a sub-stream).
+beats i b | etempo i x | pause r | resume r | stop r | wait c | sig c | seed n | draw k | pull r (r.next() on a sub-stream).
 
 Output per case: {'trace': 'R:… L:… | end=… pend=…'  (same text as the Lean driver's `dump`),
                   'moves': [['adv','1/8'], ['run','sys'], …]   (RT only),
@@ -203,6 +203,8 @@ class Prog:
                         run.events.append(f'X:{i}:{i}')
                 elif op == 'etempo':
                     run.tempo[a[1]].etempo(num(a[2]))
+                elif op == 'beats':
+                    run.tempo[a[1]].beats = num(a[2])
                 elif op == 'raise':
                     raise ValueError('c05 body fails')
                 elif op in ('pause', 'stop'):
@@ -273,7 +275,7 @@ def nrt_case(case):
     p.start_root()
     err = None
     try:
-        score = main.process()
+        score = main.process(num(case.get('tail', '0')))
     except Exception as e:      # must not happen
         err = f'{type(e).__name__}: {e}'
         score = None
